@@ -171,7 +171,59 @@ def run(tier, seed, build, res):
     # the general stream: texts only
     g = list(universe.gen_cases(rng, 200 if tier == 'quick' else 5000,
                                 kinds=('doc', 'delete')))
-    universe.run(g, res, 'parser', project, lambda *a: None)
+    from props import c03
+
+    def glue_oracle(c, d, kind, im):
+        # words of a structured document are not glued to what stands next
+        # to them (harness/props/c03.py: glued)
+        if d is None or kind != 'doc' or im[0] != 'OK' or c.extr or c.unkn or c.repl:
+            return None
+        allt = '\n'.join(t for _, t, _ in universe.texts_of(im))
+        return c03.glued(c, d, allt, set(d.accented))
+    universe.run(g, res, 'parser', project, glue_oracle)
+    after_construct_stream(rng, res, tier)
+
+
+def after_construct_stream(rng, res, tier):
+    """a word that follows a construct behind white space is not glued to the
+    text the construct generates: every macro of the catalogue (its arguments
+    in braces), the glossary macros with entries read from a .glsdefs file"""
+    macs, envs = universe.catalogue()
+    calls = []
+    for name, (args, dcls) in macs:
+        if name in universe.CAT_SKIP or 'A' not in args or name in (
+                '\\LTinput', '\\usepackage', '\\documentclass', '\\begin', '\\end'):
+            continue
+        a = ''.join('{german}' if name in ('\\foreignlanguage', '\\selectlanguage')
+                    else '{ma}' for code in args if code == 'A')
+        calls.append(('', name + a, dcls))
+    pre = '\\usepackage{glossaries}\\LTinput{main.glsdefs}\n'
+    for m in ('\\gls', '\\Gls', '\\glspl', '\\GLS', '\\glsdesc', '\\glstext', '\\Glspl',
+              '\\glsentrytext', '\\acrshort', '\\acrlong'):
+        for lab in ('pp', 'ex'):
+            calls.append((pre, m + '{' + lab + '}', ''))
+    if tier == 'quick':
+        calls = calls[-20:] + rng.sample(calls[:-20], 40)
+    cases = []
+    for pre_, call, dcls in calls:
+        for sep in (' ', '\n', ' % c\n', '  '):
+            tex = pre_ + 'Wone ' + call + sep + 'Wtwo end.\n'
+            c = parsecase.T2T(tex, lang='en', pack='*', dcls=dcls,
+                              files={'main.glsdefs': universe.FILES['main.glsdefs']})
+            cases.append((c, None, 'after'))
+
+    def oracle(c, d, kind, im):
+        if im[0] != 'OK':
+            return None
+        t = im[1][1]
+        k = t.find('Wtwo')
+        if k < 0:
+            return 'the word behind the construct is lost: %r' % t
+        if k > 0 and t[k - 1].isalnum():
+            return ('the word behind the construct is glued to the generated text: %r'
+                    % t[max(0, k - 12):k + 4])
+        return None
+    universe.run(cases, res, 'after-construct', project, oracle)
 
 
 def replay(payload, build, res):
